@@ -48,3 +48,17 @@ Proof.
   unfold req_cap. reflexivity.
 Qed.
 Print Assumptions reuse_equals_fresh.
+
+(* ---- tie to the source: every statement above is about Model.v / Api.v; Proofs/Src*.v prove that the
+   functions TRANSLATED from /repo/src/lib.rs on this run (Generated/Lib.v, LibApi.v) compute the same
+   results, for every environment whose scanners only move forward (all concrete backends do), so each
+   theorem of this file holds of the translated source by rewriting with `source_tie`.  Only the entry-point
+   families this property speaks about are imported (Req, Resp) ---- *)
+From HV Require Import Backends.
+From HV.Proofs Require Import Mono BackendsFwd SrcReq SrcResp.
+Theorem source_tie : forall E, env_fwd E -> request_source_is_model E /\ response_source_is_model E.
+Proof. intros E HE. repeat split; first [apply src_tie_request | apply src_tie_response]; exact HE. Qed.
+Print Assumptions source_tie.
+Theorem source_tie_backends : forall W be, request_source_is_model (env_of W be) /\ response_source_is_model (env_of W be).
+Proof. intros W be. apply source_tie, backends_fwd. Qed.
+Print Assumptions source_tie_backends.
